@@ -48,9 +48,10 @@ def str_arms(body, subject_pred=None):
     return out
 
 
-def exclusive_regions(cfg, entries):
-    """entries: {key: entry block}.  -> {key: set(blocks reachable only from this entry)}"""
-    reach = {k: cfg.reachable_from(b) for k, b in entries.items()}
+def exclusive_regions(cfg, entries, avoid=()):
+    """entries: {key: entry block}.  -> {key: set(blocks reachable only from this entry)}.  `avoid`: blocks not to walk through (the head of
+    a loop the switch sits in: an arm that ends in `continue` would otherwise reach every other arm)"""
+    reach = {k: cfg.reachable_from(b, avoid=set(avoid)) for k, b in entries.items()}
     out = {}
     for k, r in reach.items():
         others = set()
